@@ -153,6 +153,7 @@ fn alpha(r: &KRange) -> (i128, i128) {
 // @fns KRange::pop_front, KRange::pop_back (called by RangeIterator::next/next_back and by the VM's temporary-range loops)
 // @bound one inductive step from an arbitrary bounded range: any i64 start/end, inclusive flag, i32 and boxed-i64 representation; inclusive end < i64::MAX or range not reaching it
 // @assume the range is bounded (unbounded ranges yield an Error value whose drop glue is outside the encodable fragment; RangeIterator::new only accepts bounded ranges)
+// @timeout 1500
 #[kani::proof]
 fn c13_range_pop() {
     let (mut r, s, e, inc) = any_bounded();
@@ -191,6 +192,7 @@ fn c13_range_pop() {
 // @props C13
 // @fns RangeIterator::next, RangeIterator::next_back (types/iterator.rs) via KRange::pop_front/pop_back: two consecutive pops from either end
 // @bound two pops from an arbitrary bounded range, any mix of ends
+// @timeout 1500
 #[kani::proof]
 fn c13_range_pop2() {
     let (mut r, s, e, inc) = any_bounded();
